@@ -675,9 +675,9 @@ def run_check(modname, tier, seed, only=None, mutations=None, write_evidence=Tru
     else:
         step = max(1, len(cand) // max(1, nval))
         vidx = sorted(set(cand[::step][:nval] + cand[-1:])) if cand else []
-        if hasattr(mod, "validate_always"):
-            # configurations whose claims only the plain import can evaluate are always part of the reference run
-            vidx = sorted(set(vidx) | {i for i in range(len(configs)) if mod.validate_always(configs[i])})
+    if hasattr(mod, "validate_always"):
+        # configurations whose claims only the plain import can evaluate are always part of the reference run
+        vidx = sorted(set(vidx) | {i for i in range(len(configs)) if mod.validate_always(configs[i])})
     val_jobs = collections.deque((i, seed + 7 * k) for k, i in enumerate(vidx))
     val_results = {}
     running = {}
